@@ -782,7 +782,7 @@ class Misc(Stream):
                 cls = rng.choice(list(JD_DOC))
                 mx = JD_DOC[cls]
                 ln = rng.choice([0, 5, mx - 1, mx, mx + 1, mx + 50])
-                out.append({'kind': 'jd_obj', 'cls': cls, 'v': self.json_obj(rng, ln)})
+                out.append({'kind': 'jd_obj', 'cls': cls, 'v': self.blob_value(rng) if rng.random() < 0.2 else self.json_obj(rng, ln)})
             else:
                 kws = []
                 for f in rng.sample(CAP_FIELDS + ['zz_unknown'], rng.choice([1, 1, 2, 3])):
@@ -816,7 +816,16 @@ class Misc(Stream):
             return {'k': [1, 2.5, None, True, 'é']}
         if r < 0.85:
             return rng.choice([5, 1.5, True, [], {}, {'a': {'b': []}}])
-        return rng.choice([{'__set__': 1}, {'__obj__': 1}])      # not serialisable (decoded in observe)
+        if r < 0.93:       # not serialisable (decoded in observe)
+            return rng.choice([{'__set__': 1}, {'__obj__': 1}, {'__bytes__': rng.choice([0, 2, 1500])}])
+        return self.blob_value(rng)
+
+    @staticmethod
+    def blob_value(rng):
+        """another JSONData blob as the argument; text length around / between the limits of the kinds"""
+        src = rng.choice(list(JD_DOC))
+        n = rng.choice([x for x in (4, 10, 1023, 1024, 1025, 1500, 2047, 2048, 2049, 3000, 4095, 4096) if x <= JD_DOC[src]])
+        return {'__blob__': [src, n]}
 
     def corpus(self):
         out = [{'kind': 'tags', 'args': ['abc\n']}, {'kind': 'tags', 'args': [['a', 'b-c'], 'd']}, {'kind': 'tags_json', 'args': [['x', 5]]}]
@@ -837,6 +846,13 @@ class Misc(Stream):
                 out.append({'kind': 'jd_str', 'cls': cls, 'v': '"' + 'a' * (ln - 2) + '"'})
                 out.append({'kind': 'jd_obj', 'cls': cls, 'v': ['a' * (ln - 4)]})
         out.append({'kind': 'jd_obj', 'cls': 'UserData', 'v': None})
+        for tgt in JD_DOC:                 # a blob of every kind handed to the constructor of every kind
+            for src_, smx in JD_DOC.items():
+                for n in (10, 1024, 1025, 2048, 2049, 4096):
+                    if n <= smx:
+                        out.append({'kind': 'jd_obj', 'cls': tgt, 'v': {'__blob__': [src_, n]}})
+            for v in ({'__bytes__': 3}, {'__set__': 1}, {'__obj__': 1}):
+                out.append({'kind': 'jd_obj', 'cls': tgt, 'v': v})
         return out + kept_corpus('misc')
 
     @staticmethod
@@ -845,7 +861,17 @@ class Misc(Stream):
             return {1, 2}
         if isinstance(v, dict) and '__obj__' in v:
             return object()
+        if isinstance(v, dict) and '__bytes__' in v:
+            return b'a' * v['__bytes__']
+        if isinstance(v, dict) and '__blob__' in v:      # a JSONData instance of the named kind whose JSON text has n characters
+            import fim.slivers.json_data as jd
+            kind, n = v['__blob__']
+            return getattr(jd, kind)(['a' * (n - 4)])
         return v
+
+    @staticmethod
+    def blob_spec(v):
+        return v['__blob__'] if isinstance(v, dict) and '__blob__' in v else None
 
     def observe(self, case):
         k = case['kind']
@@ -884,6 +910,15 @@ class Misc(Stream):
                 return {'ok': [[f, c.__dict__[f]] for f in c.__dict__]}
         except Exception as e:
             return {'err': type(e).__name__}
+
+    def arg_kind(self, case):
+        v = case['v']
+        if isinstance(v, str):
+            return 'a str of %d characters' % len(v)
+        b = self.blob_spec(v)
+        if b:
+            return 'a %s blob of %d characters' % (b[0], b[1])
+        return 'an object'
 
     def jd_input(self, case):
         v = case['v']
@@ -973,13 +1008,33 @@ class Misc(Stream):
                     valid = True
                 except TypeError:
                     text, valid = '', False
+            # whatever the argument was: nothing over the target kind's limit / no invalid text may be stored, and the
+            # stored text must be accepted when given again
+            if ok:
+                st = o['ok']
+                try:
+                    json.loads(st)
+                    st_valid = isinstance(st, str)
+                except (ValueError, TypeError, RecursionError):
+                    st_valid = False
+                if not st_valid or len(st) > mx:
+                    return '%s holds %s characters, valid JSON=%s (limit %d) after being given %s' % (
+                        case['cls'], len(st) if isinstance(st, str) else '?', st_valid, mx, self.arg_kind(case))
+                if not o['again']:
+                    return 'stored %s text is rejected when given again' % case['cls']
+            blob = self.blob_spec(case['v']) if k == 'jd_obj' else None
+            if blob is not None:
+                # another blob as argument: rejecting is fine (not a JSON value); a copy is fine only within the limit (checked above)
+                if ok and o['ok'] != '["' + 'a' * (blob[1] - 4) + '"]':
+                    return 'text stored from a %s blob differs from that blob' % blob[0]
+                return None
             good = valid and len(text) <= mx
             if ok and not good:
                 return '%s of %d characters / valid=%s stored (limit %d)' % (case['cls'], len(text), valid, mx)
             if not ok and good:
                 return 'in-domain %s rejected (%s)' % (case['cls'], o['err'])
-            if ok and (o['ok'] != text or not o['again']):
-                return 'stored JSON text differs or is rejected when given again'
+            if ok and o['ok'] != text:
+                return 'stored JSON text differs'
             return None
         if k == 'caps':
             exp = dict()
@@ -1070,6 +1125,7 @@ SIBLINGS = {'NodeSliver': ['fixture-node2'], 'ComponentSliver': ['fixture-comp2'
             'NetworkServiceSliver': ['fixture-svc2', 'fixture-node-fixture-comp-l2ovs'],
             'InterfaceSliver': ['fixture-comp-p2']}
 ASCII_NON_ALNUM = [chr(c) for c in range(128) if not chr(c).isalnum()]
+JD_PROP = {'user_data': 'UserData', 'layout_data': 'LayoutData', 'mf_data': 'MeasurementData'}
 
 
 class Topo(Stream):
@@ -1080,7 +1136,8 @@ class Topo(Stream):
     shard = 150
     rule = ('one API call on a fresh experiment topology (node + SmartNIC component + L2Bridge service): add_node / '
             'add_component / add_network_service with a candidate name; .name = and rename() on node, component, service, '
-            'interface; update_labels / labels = / set_property(labels); boot_script, tags, user_data through set_properties; '
+            'interface; update_labels / labels = / set_property(labels); boot_script, tags; user_data / layout_data / mf_data given '
+            'str, object, non-serialisable values and JSONData blobs of every kind, by attribute and by set_properties; '
             'distinct by case')
 
     def fixture(self):
@@ -1135,9 +1192,19 @@ class Topo(Stream):
             elif k == 'tags':
                 out.append({'kind': 'tags', 'args': [gen_tag(rng) for _ in range(rng.choice([1, 2, 3]))]})
             else:
-                mx = JD_DOC['UserData']
+                prop = rng.choice(list(JD_PROP))
+                mx = JD_DOC[JD_PROP[prop]]
                 ln = rng.choice([5, mx - 1, mx, mx + 1])
-                out.append({'kind': 'user_data', 'v': ['a' * max(ln - 4, 0)] if rng.random() < 0.5 else '"' + 'a' * (ln - 2) + '"'})
+                r = rng.random()
+                if r < 0.3:
+                    v = ['a' * max(ln - 4, 0)]
+                elif r < 0.55:
+                    v = '"' + 'a' * (ln - 2) + '"'
+                elif r < 0.9:
+                    v = Misc.blob_value(rng)
+                else:
+                    v = rng.choice([{'__set__': 1}, {'__obj__': 1}, {'__bytes__': 3}])
+                out.append({'kind': 'blob_prop', 'prop': prop, 'v': v, 'how': rng.choice(['attr', 'attr', 'set_properties'])})
         return out
 
     def corpus(self):
@@ -1150,6 +1217,12 @@ class Topo(Stream):
                 out.append({'kind': 'set' if ord(p) % 2 else 'rename', 'cls': cls, 'v': 'ab' + p + 'cd'})
         out.append({'kind': 'update_labels', 'base': [['vlan', '5']], 'kws': [['vlan', '6\n']]})
         out.append({'kind': 'update_labels', 'base': [], 'kws': [['vlan', ['6', '7']]]})
+        for prop, tgt in JD_PROP.items():     # a blob of every kind assigned to every blob-valued element property
+            for src_, smx in JD_DOC.items():
+                for n in (10, 1025, 2049, 4096):
+                    if n <= smx:
+                        out.append({'kind': 'blob_prop', 'prop': prop, 'v': {'__blob__': [src_, n]}, 'how': 'attr'})
+                        out.append({'kind': 'blob_prop', 'prop': prop, 'v': {'__blob__': [src_, n]}, 'how': 'set_properties'})
         return out + kept_corpus('topo')
 
     def observe(self, case):
@@ -1220,12 +1293,46 @@ class Topo(Stream):
                 from fim.slivers.tags import Tags
                 n.set_properties(tags=Tags(*case['args']))
                 return {'ok': list(n.tags.tags)}
-            if k == 'user_data':
-                from fim.slivers.json_data import UserData
-                n.set_properties(user_data=UserData(case['v']))
-                return {'ok': n.get_property('user_data').json, 'again': True}
+            if k == 'blob_prop':
+                import fim.slivers.json_data as jd
+                prop = case['prop']
+                cls = getattr(jd, JD_PROP[prop])
+                err = None
+                try:
+                    val = Misc.decode_obj(case['v'])
+                    if case['how'] == 'attr':
+                        setattr(n, prop, val)               # the element setter wraps anything that is not of the property's kind
+                    else:
+                        n.set_properties(**{prop: cls(val)})
+                except Exception as e:
+                    err = type(e).__name__
+                try:
+                    d = n.get_property(prop)
+                    stored = d.json if d is not None else None
+                    n.get_sliver()
+                except Exception as e:
+                    return {'read_err': type(e).__name__, 'call_err': err}
+                if err is not None:
+                    return {'err': err, 'after': stored}
+                again = True
+                try:
+                    again = cls(stored).json == stored
+                except Exception:
+                    again = False
+                return {'ok': stored, 'again': again}
         except Exception as e:
             return {'err': type(e).__name__}
+
+    def blob_as_misc(self, case):
+        """the equivalent constructor-level case: a blob of the property's own kind assigned through the attribute is
+        written as it is (its text then goes through the string path when read back); everything else is wrapped"""
+        tgt = JD_PROP[case['prop']]
+        b = Misc.blob_spec(case['v'])
+        if b is not None and b[0] == tgt and case['how'] == 'attr':
+            return {'kind': 'jd_str', 'cls': tgt, 'v': '["' + 'a' * (b[1] - 4) + '"]'}
+        if b is not None and b[0] == tgt:      # set_properties(prop=Kind(blob of Kind)): the harness' own wrapping call
+            return {'kind': 'jd_obj', 'cls': tgt, 'v': case['v']}
+        return {'kind': 'jd_str' if isinstance(case['v'], str) else 'jd_obj', 'cls': tgt, 'v': case['v']}
 
     def to_coq(self, case, o):
         k = case['kind']
@@ -1254,8 +1361,9 @@ class Topo(Stream):
             return 'T_misc (%s)' % m.to_coq({'kind': 'boot', 'v': case['v']}, o)
         if k == 'tags':
             return 'T_misc (%s)' % m.to_coq({'kind': 'tags', 'args': case['args']}, o)
-        kind = 'jd_str' if isinstance(case['v'], str) else 'jd_obj'
-        return 'T_misc (%s)' % m.to_coq({'kind': kind, 'cls': 'UserData', 'v': case['v']}, o)
+        if 'read_err' in o:
+            return 'T_setname [] [] [] false [1]%N [] None'      # the element cannot be read back: never agrees
+        return 'T_misc (%s)' % m.to_coq(self.blob_as_misc(case), o)
 
     def oracle(self, case, o):
         k = case['kind']
@@ -1308,8 +1416,12 @@ class Topo(Stream):
             if 'ok' in oo:
                 oo['recoded'] = oo['ok']
             return m.oracle({'kind': 'tags', 'args': case['args']}, oo)
-        kind = 'jd_str' if isinstance(case['v'], str) else 'jd_obj'
-        return m.oracle({'kind': kind, 'cls': 'UserData', 'v': case['v']}, o)
+        if 'read_err' in o:
+            return 'after %s = %s the element cannot be read back (%s); the call itself raised %s' % (
+                case['prop'], m.arg_kind(case), o['read_err'], o['call_err'])
+        if 'err' in o and o.get('after') is not None:
+            return 'a rejected %s assignment left %d characters in the model' % (case['prop'], len(o['after']))
+        return m.oracle(self.blob_as_misc(case), o)
 
     def known_signature(self, case, o, why):
         return 'topo:%s:%s' % (case['kind'], why or '')
